@@ -1361,9 +1361,9 @@ func TestVerif_C19_Scaled(t *testing.T) {
 		if c19Replay(r, t) {
 			return
 		}
-		c19Explore(r, c19CfgPlain(), mc.Pick(r, 5, 7), 1, 1, true)
-		c19Explore(r, c19CfgTn2(), mc.Pick(r, 4, 6), 1, 1, true)
-		c19Explore(r, c19CfgTn34(), mc.Pick(r, 4, 6), 1, 1, true)
+		c19Explore(r, c19CfgPlain(), mc.Pick(r, 5, 6), 1, 1, true)
+		c19Explore(r, c19CfgTn2(), mc.Pick(r, 4, 5), 1, 1, true)
+		c19Explore(r, c19CfgTn34(), mc.Pick(r, 4, 5), 1, 1, true)
 	})
 }
 
